@@ -527,14 +527,14 @@ PROPS = {
     },
     "C03": {
         "lean_modules": ["Dbg.Props.C03", "Dbg.Props.C09c"],
-        "theorems": ["CompressGraph.C09_result_wellformed", "Graph.C03_link_exact", "Graph.C03_edges_complete", "Graph.C03_exts_resolve_from_reads", "Graph.C03_observed_adjacency_recorded", "Compress.ext_target_port", "Compress.findLink_complete", "Graph.C03_ginv_of_compress", "Graph.C03_edges_symmetric_from_reads", "Graph.C03_edges_symmetric", "Graph.C03_ginv_decidable", "Graph.C03_prune_exact", "Graph.C03_valid_exts_exact", "Graph.C03_edges_justified", "Graph.C03_walk_sequence", "Graph.C03_maxPath_walk", "Graph.C03_maxPath_sequence", "Graph.edge_overlap", "Graph.findLink_sound", "Graph.searchKmer_sound", "Graph.searchKmer_complete", "Graph.findLink_exts_irrelevant"],
-        "partial": ["adjacency = (K+1)-mers between retained k-mers is proved for the graph compress_kmers builds from reads (C03_edges_complete, C03_exts_resolve_from_reads, C03_observed_adjacency_recorded; palindromic terminal k-mers excluded in the converse); GInv (hence edge symmetry) and completeness of find_link are also proved for the result of compress_graph without censoring (C09_result_wellformed) and for the sharded pipeline's final graph (C04_sharded_eq_direct); with censoring they are evaluated executably; max_path_beam is not modelled"],
+        "theorems": ["Graph.C03_maxPathBeam_trail", "Graph.C03_maxPathBeam_sequence", "Graph.C03_maxPathBeam_terminates", "CompressGraph.C09_result_wellformed", "Graph.C03_link_exact", "Graph.C03_edges_complete", "Graph.C03_exts_resolve_from_reads", "Graph.C03_observed_adjacency_recorded", "Compress.ext_target_port", "Compress.findLink_complete", "Graph.C03_ginv_of_compress", "Graph.C03_edges_symmetric_from_reads", "Graph.C03_edges_symmetric", "Graph.C03_ginv_decidable", "Graph.C03_prune_exact", "Graph.C03_valid_exts_exact", "Graph.C03_edges_justified", "Graph.C03_walk_sequence", "Graph.C03_maxPath_walk", "Graph.C03_maxPath_sequence", "Graph.edge_overlap", "Graph.findLink_sound", "Graph.searchKmer_sound", "Graph.searchKmer_complete", "Graph.findLink_exts_irrelevant"],
+        "partial": ["adjacency = (K+1)-mers between retained k-mers is proved for the graph compress_kmers builds from reads (C03_edges_complete, C03_exts_resolve_from_reads, C03_observed_adjacency_recorded; palindromic terminal k-mers excluded in the converse); GInv (hence edge symmetry) and completeness of find_link are also proved for the result of compress_graph without censoring (C09_result_wellformed) and for the sharded pipeline's final graph (C04_sharded_eq_direct); with censoring they are evaluated executably"],
         "n_quick": 3000, "n_thorough": 200000,
         "nontrivial": lambda toks, impl: impl != "panic" and (toks[1] != "graph" or toks[4].count(",") >= 1), "tags": _c03_tags,
         "rule": "requests: `graph K stranded nodes probes valid scores walk` on graphs produced by the real pipeline (filter -> prune -> compress -> "
                 "finish) from the structured read-set generator: all edge lists, find_link for terminal / internal / random k-mers in both "
                 "directions, get_valid_exts with all-valid or a random validity set, max_path with random integer scores 0..5 and solid "
-                "flags, sequence_of_path of the best path and of a random walk along reported edges; `prune K stranded sharded table all`: "
+                "flags, max_path_beam with beam widths 1, 2, 5 and the same scores, sequence_of_path of the best paths and of a random walk along reported edges; `prune K stranded sharded table all`: "
                 "both pruning functions with a random censored quarter; `pipe K stranded thr reads`: the pipeline end to end with overlap, "
                 "symmetry and adjacency-set = (K+1)-mers-of-the-reads checked. Non-trivial = graph with >= 2 nodes, or a prune/pipe request.",
         "trusted_base": ["BoomHashMap::get is exact on distinct keys (node ends of a valid graph are distinct)", "scores are small integers, exactly representable as f32"],
